@@ -113,7 +113,9 @@ func headerConformance(c *Ctx) {
 			byte(h.DataSize), byte(h.DataSize >> 8), byte(h.DataSize >> 16), byte(h.DataSize >> 24)}
 		b12 = append(b12, h.DataType[:]...)
 		good := crc16(b12)
-		switch rng.Intn(6) {
+		switch rng.Intn(7) {
+		case 6: // values that might be taken for "no CRC stored"
+			h.CRC = []uint16{0xFFFF, 0x0001, 0xFF00, 0x00FF, 0x8000}[rng.Intn(5)]
 		case 0:
 			h.CRC = 0
 		case 1, 2:
